@@ -247,6 +247,23 @@ Theorem C20_override_noop : forall t, resolve_ty [] [] t = t.
 Proof. exact resolve_ty_noop. Qed.
 Print Assumptions C20_override_noop.
 
+(* /repo fcaa28c: a strategy registered under the ORIGIN class applies to every List[..] / Dict[..] position (the lookup
+   keys of the schema are those of the serializer: the type, then its origin); other containers are not touched by it *)
+Theorem C20_override_origin_key : forall dial conf a o,
+  first_ser [lookup "list" dial; lookup "list" conf] = Some o -> apply_ov (Some o) (TList a) = None \/
+  (forall t', apply_ov (Some o) (TList a) = Some t' -> resolve_ty dial conf (TList a) = t').
+Proof.
+  intros dial conf a o H. destruct (apply_ov (Some o) (TList a)) as [t'|] eqn:E; [right|left; reflexivity].
+  intros t'' Ht; inversion Ht; subst. cbn [resolve_ty table_ov tykey okey]. rewrite H, E. reflexivity.
+Qed.
+Print Assumptions C20_override_origin_key.
+Example C20_origin_key_nonvacuous :
+  resolve_ty [("list", ORet (Some TStr))] [] (TDict (TList TInt)) = TDict TStr /\
+  resolve_ty [] [("dict", ORet None)] (TTuple [TMap TInt TStr; TDict TBool; TSet TInt]) = TTuple [TAny; TAny; TSet TInt] /\
+  resolve_ty [("list", ODeser)] [("list", ORet (Some TBool)); ("int", ORet (Some TStr))] (TList TInt) = TBool /\
+  resolve_ty [("list", OPass)] [("list", ORet (Some TBool)); ("int", ORet (Some TStr))] (TList TInt) = TList TStr.
+Proof. repeat split; reflexivity. Qed.
+
 (* a type whose third-party classes are all covered by serializing strategies with supported replacements is supported *)
 Theorem C20_override_covered : forall dial conf t, covered dial conf t = true -> ty_ok (resolve_ty dial conf t) = true.
 Proof. exact covered_ok. Qed.
